@@ -20,6 +20,7 @@ def loads_corr(ctx, texts, label="LOADS", loose=False):
         st, d = canon.cmp_result(m, ic, loose)
         if st == "ood":
             ctx.ood += 1
+            ctx.count("ood:" + m[1])
         elif st == "differ":
             ctx.disagree("%s: %s" % (label, "; ".join(d[:3])),
                          {"kind": "correspondence", "cmd": "LOADS", "text": t, "model": short(o, 2000),
@@ -93,7 +94,7 @@ def _val_eq(a, b, path, diffs, exact, loose_kinds=False):
             for i, (x, y) in enumerate(zip(a[1], b[1])):
                 _val_eq(x, y, "%s[%d]" % (path, i), diffs, exact, loose_kinds)
     elif ka == "arr":
-        if a[1:4] != b[1:4]:
+        if (a[2:4] != b[2:4]) if loose_kinds else (a[1:4] != b[1:4]):
             diffs.append("%s: array header %s vs %s" % (path, a[1:4], b[1:4]))
         else:
             for i, (x, y) in enumerate(zip(a[4], b[4])):
